@@ -118,6 +118,10 @@ class FNT(tuple):
     fields = ()
 
 
+class _Auto(object):
+    """enum.auto()"""
+
+
 class FObj(object):
     """instance of a plain value class of the repo: attributes set by its __init__"""
 
@@ -287,6 +291,14 @@ class Folder(object):
         if isinstance(raw, FuncInfo):
             return _Bound("func", (raw, cls), raw.name)
         if isinstance(raw, ast.AST):
+            # a container made in a class body is one object: every read during one evaluation sees the same one (what was
+            # stored in it a moment ago is found again); between two top-level evaluations it is fresh, as in a new process
+            if isinstance(raw, (ast.Dict, ast.List, ast.Set)) or (isinstance(raw, ast.Call) and not raw.args and not raw.keywords):
+                state = self.__dict__.setdefault("_class_state", {})
+                key = (id(owner), id(raw))
+                if key not in state:
+                    state[key] = self._module_expr(owner, raw)
+                return state[key]
             return self._module_expr(owner, raw)
         raise AnalysisError("cannot evaluate attribute of %s" % owner.qualname)
 
@@ -294,6 +306,38 @@ class Folder(object):
         # the expression sits in the class body: the names bound earlier in that body are in scope
         ev = _Frame(self, owner.module, _ClassScope(self, owner), owner, None)
         return ev.expr(e)
+
+    def enum_members(self, ci: ClassInfo):
+        """[(name, member)] of an enumeration of the code base in definition order, aliases included (an alias is the
+        member object of the first name with the same value); the member objects are FObj singletons with .name / .value"""
+        table = self.p.__dict__.setdefault("_fold_enum_members", {})
+        if id(ci) in table:
+            return table[id(ci)]
+        info = self.p.enum_info(ci)
+        if info is None:
+            raise AnalysisError("%s is not an enumeration" % ci.qualname)
+        out, by_value, count = [], [], 0
+        for name, expr in info["members"]:
+            v = self._module_expr(info["holder"], expr)
+            if isinstance(v, _Auto):
+                count += 1
+                v = name.lower() if info["str_enum"] else ((1 << (count - 1)) if info["flag"] else count)
+            elif isinstance(v, int) and not isinstance(v, bool):
+                count = v
+            if not (v is None or isinstance(v, (str, int, float, tuple, frozenset, bool)) or getattr(v, "enum_member", False)):
+                raise AnalysisError("%s.%s: the value of the member does not fold to a constant" % (ci.qualname, name))
+            member = None
+            for v0, m0 in by_value:
+                if (v0 is v) if getattr(v, "enum_member", False) else (type(v0) is type(v) and v0 == v):
+                    member = m0
+            if member is None:
+                member = FObj(ci)
+                member.attrs.update({"name": name, "value": v, "_name_": name, "_value_": v})
+                member.enum_member = True
+                by_value.append((v, member))
+            out.append((name, member))
+        table[id(ci)] = out
+        return out
 
     def module_const(self, module, e: ast.expr):
         """the value of an expression written at module level (names resolve through the module's bindings)"""
@@ -307,6 +351,8 @@ class Folder(object):
 
     def call_func(self, fi: FuncInfo, cls: Optional[ClassInfo], args=(), kwargs=None, instance=None):
         kwargs = dict(kwargs or {})
+        if self.depth == 0:
+            self.__dict__["_class_state"] = {}  # a top-level evaluation starts from the state of a fresh process
         self.depth += 1
         if self.depth > 12:
             raise AnalysisError("folder recursion too deep at %s" % fi.qualname)
@@ -375,7 +421,7 @@ class Folder(object):
         p._class_hook = self.apply_hooks_to
 
     HARMLESS_CLASS_DECORATORS = ("six.python_2_unicode_compatible", "python_2_unicode_compatible", "six.add_metaclass", "add_metaclass",
-                                 "dataclasses.dataclass", "dataclass", "functools.total_ordering", "total_ordering")
+                                 "dataclasses.dataclass", "dataclass", "functools.total_ordering", "total_ordering", "unique", "enum.unique")
 
     def apply_hooks_to(self, ci: ClassInfo):
         self._apply_init_subclass(ci)
@@ -682,6 +728,11 @@ class _Frame(object):
             return True
         if isinstance(v, (ClassInfo, Enzyme, SeqVal)):
             return True if not isinstance(v, SeqVal) else bool(v.s)
+        if getattr(v, "enum_member", False):
+            info = self.f.p.enum_info(v.ci)
+            if self.f.p.class_attr_def(v.ci, "__bool__")[1] is not None or self.f.p.class_attr_def(v.ci, "__len__")[1] is not None:
+                self.unsupported(node, "truth value of a member of an enumeration with its own __bool__")
+            return bool(v.attrs["value"]) if (info["mixin"] or info["flag"]) else True
         self.unsupported(node, "truth value of %r" % (v,))
 
     def iterate(self, v, node):
@@ -689,6 +740,15 @@ class _Frame(object):
             return list(v)
         if isinstance(v, SeqVal):
             return list(v.s)
+        if isinstance(v, ClassInfo) and self.f.p.enum_info(v) is not None:
+            seen, out = set(), []
+            for nm, mem in self.f.enum_members(v):  # iteration skips aliases
+                if id(mem) not in seen:
+                    seen.add(id(mem))
+                    out.append(mem)
+            return out
+        if isinstance(v, FNT):
+            return list(v)
         self.unsupported(node, "iteration over %r" % (v,))
 
     def assign(self, target, v):
@@ -829,6 +889,12 @@ class _Frame(object):
             return str(v)
         if isinstance(v, Enzyme):
             return v.name
+        if getattr(v, "enum_member", False):
+            info = self.f.p.enum_info(v.ci)
+            if self.f.p.class_attr_def(v.ci, "__str__")[1] is not None or self.f.p.class_attr_def(v.ci, "__format__")[1] is not None:
+                self.unsupported(node, "str() of a member of an enumeration with its own __str__")
+            # (Python >= 3.12: str() and format() of a member are "Class.NAME" also when a type is mixed in; StrEnum: the value)
+            return v.attrs["value"] if info["str_enum"] else "%s.%s" % (v.ci.name, v.attrs["name"])
         self.unsupported(node, "str() of %r" % (v,))
 
     def e_Name(self, e):
@@ -867,8 +933,12 @@ class _Frame(object):
                 return _Bound("builtin", None, "chain")
             if d == "re":
                 return _ReModule()
-            if d in ("collections", "functools", "operator", "itertools", "types", "six") or d in LIBRARY_DATA_MODULES:
+            if d in ("collections", "functools", "operator", "itertools", "types", "six", "enum", "typing") or d in LIBRARY_DATA_MODULES:
                 return _LibModule(d)
+            if d.startswith("typing.") and d != "typing.NamedTuple":
+                return _Bound("lib", None, d)  # a type expression: only ever passed around
+            if d == "enum.auto":
+                return _Bound("lib", None, d)
             ok_, v_ = library_constant(d)
             if ok_:
                 return v_
@@ -912,6 +982,13 @@ class _Frame(object):
                                 and not (isinstance(n.value, ast.Constant) and n.value.value is None):
                             raise AnalysisError("%s:%d: class attribute %s is computed per class by %s.__init_subclass__; class creation "
                                                 "hooks are not evaluated by the constant folder" % (isub.module.relpath, n.lineno, a, c.name))
+            if self.f.p.enum_info(base) is not None and not (a.startswith("_") and a != "__members__"):
+                members = self.f.enum_members(base)
+                if a == "__members__":
+                    return dict(members)
+                for nm, mem in members:
+                    if nm == a:
+                        return mem
             if a == "__dict__":
                 return _ClassNS(self.f, base)
             if base is getattr(self.f, "_hook_target", None) and a in (self.f._hook_overlay or {}):
@@ -944,6 +1021,12 @@ class _Frame(object):
                 return _Bound("lib", None, d)
             if d in ("six.iteritems", "six.itervalues", "six.iterkeys", "six.viewitems", "six.viewkeys", "six.viewvalues"):
                 return _Bound("lib", None, d)
+            if d == "enum.auto":
+                return _Bound("lib", None, d)
+            if d == "typing.NamedTuple":
+                return _Bound("lib", None, d)
+            if base.name == "typing":
+                return _Bound("lib", None, d)  # typing.Text, typing.Tuple ...: type expressions, only ever passed around
             if d == "six.MAXSIZE":
                 import sys as _sys
                 return _sys.maxsize
@@ -983,6 +1066,11 @@ class _Frame(object):
                 return _Bound("func", (raw, base.ci), a)
             if owner is not None:
                 return self.f._attr_value(owner, raw, base.ci)
+            if getattr(base, "enum_member", False):
+                info = self.f.p.enum_info(base.ci)
+                v = base.attrs["value"]
+                if info["mixin"] == "str" and isinstance(v, str) and a in SAFE_STR_METHODS:
+                    return _Bound("native", v, a)  # Topology.CIRCULAR.lower(): the str the member is
             self.unsupported(e, "attribute of a value object")
         if isinstance(base, Enzyme):
             if a in ENZYME_ATTRS:
@@ -1094,6 +1182,16 @@ class _Frame(object):
         """value classes of the repo used inside a structure(): namedtuple-based ones, and plain classes whose
         __init__ only stores its arguments"""
         p = self.f.p
+        if p.enum_info(ci) is not None:
+            if len(args) != 1 or kwargs:
+                self.unsupported(node, "call of an enumeration")
+            if getattr(args[0], "enum_member", False) and args[0].ci is ci:
+                return args[0]
+            for nm, mem in self.f.enum_members(ci):
+                v0 = mem.attrs["value"]
+                if type(v0) is type(args[0]) and v0 == args[0]:
+                    return mem
+            raise Raises("ValueError", "%s:%d" % (self.m.relpath if self.m else "?", getattr(node, "lineno", 0)))
         for c in p.mro(ci):
             if isinstance(c, ClassInfo):
                 fields = _nt_fields(self, c)
@@ -1107,10 +1205,13 @@ class _Frame(object):
                     o.ci, o.fields = ci, tuple(fields)
                     return o
         owner, init = p.class_attr_def(ci, "__init__")
-        if isinstance(init, FuncInfo) and all(isinstance(b, ClassInfo) or getattr(b, "dotted", "") == "builtins.object" for b in p.mro(ci)):
+        plain_bases = all(isinstance(b, ClassInfo) or getattr(b, "dotted", "") in ("builtins.object", "object") for b in p.mro(ci))
+        if isinstance(init, FuncInfo) and plain_bases:
             o = FObj(ci)
             self.f.call_func(init, ci, args, kwargs, instance=o)
             return o
+        if init is None and plain_bases and not args and not kwargs and p.class_attr_def(ci, "__new__")[1] is None:
+            return FObj(ci)  # a stateless object (a strategy): all it has is its class
         self.unsupported(node, "instantiation of %s" % ci.qualname)
 
     def e_BinOp(self, e):
@@ -1189,6 +1290,21 @@ class _Frame(object):
                 lv = left.s if isinstance(left, SeqVal) else left
                 rv = right.s if isinstance(right, SeqVal) else right
                 ok_types = (str, int, tuple, list, Enzyme, type(None), bool, dict)
+                if (getattr(lv, "enum_member", False) or getattr(rv, "enum_member", False)) and isinstance(op, (ast.Eq, ast.NotEq)):
+                    # members of an enumeration: identical or not; one that mixes in str / int also equals its plain value
+                    if getattr(lv, "enum_member", False) and getattr(rv, "enum_member", False):
+                        same = lv is rv
+                    else:
+                        mem, other = (lv, rv) if getattr(lv, "enum_member", False) else (rv, lv)
+                        info_ = self.f.p.enum_info(mem.ci)
+                        if self.f.p.class_attr_def(mem.ci, "__eq__")[1] is not None:
+                            self.unsupported(e, "comparison with a member of an enumeration that defines __eq__")
+                        same = info_["mixin"] is not None and isinstance(other, (str, int)) and mem.attrs["value"] == other
+                    r = same if isinstance(op, ast.Eq) else not same
+                    if not r:
+                        return False
+                    left = right
+                    continue
                 if not isinstance(lv, ok_types) or not isinstance(rv, ok_types):
                     if isinstance(op, (ast.Eq, ast.NotEq)) and (lv is NotImplemented or rv is NotImplemented or isinstance(lv, ClassInfo) or isinstance(rv, ClassInfo)):
                         r = (lv is rv) if isinstance(op, ast.Eq) else (lv is not rv)
@@ -1212,6 +1328,8 @@ class _Frame(object):
 
     def e_Subscript(self, e):
         base = self.expr(e.value)
+        if isinstance(base, _Bound) and base.kind == "lib" and isinstance(base.name, str) and base.name.startswith("typing."):
+            return base  # typing.Tuple[Text, Text]: still a type expression
         if isinstance(base, SeqVal):
             base = base.s
         if isinstance(e.slice, ast.Slice):
@@ -1224,6 +1342,11 @@ class _Frame(object):
                 self.unsupported(e, "slice bounds")
             return base[lo:hi:st]
         idx = self.expr(e.slice)
+        if isinstance(base, ClassInfo) and self.f.p.enum_info(base) is not None and isinstance(idx, str):
+            for nm, mem in self.f.enum_members(base):
+                if nm == idx:
+                    return mem
+            raise Raises("KeyError", "%s:%d" % (self.m.relpath if self.m else "?", getattr(e, "lineno", 0)))
         if isinstance(base, (str, tuple, list, dict, _ClassNS)):
             try:
                 return base[idx]
@@ -1343,6 +1466,8 @@ class _Frame(object):
                 for x in seq:
                     acc = self.apply(args[0], [acc, x], {}, e)
                 return acc
+            if d == "enum.auto" and not args and not kwargs:
+                return _Auto()
             if d.startswith("six.") and len(args) == 1 and not kwargs and isinstance(args[0], dict):
                 which = d[4:].replace("iter", "").replace("view", "")
                 return list(getattr(args[0], which)())
@@ -1464,6 +1589,21 @@ class _Frame(object):
                 ts = t if isinstance(t, tuple) else (t,)
                 if all(isinstance(x, _Bound) and x.kind == "builtin" and x.name in names for x in ts):
                     return isinstance(args[0], tuple(names[x.name] for x in ts))
+                if all(isinstance(x, ClassInfo) or (isinstance(x, _Partial) and x.kind == "ntclass") or (
+                        isinstance(x, _Bound) and x.kind == "builtin" and x.name in names) for x in ts):
+                    # classes of the code base (and namedtuple classes made on the spot) among the types
+                    v0 = args[0]
+                    for x in ts:
+                        if isinstance(x, _Bound):
+                            if isinstance(v0, names[x.name]) and not (isinstance(v0, FNT) and x.name != "tuple"):
+                                return True
+                        elif isinstance(x, ClassInfo):
+                            ci0 = getattr(v0, "ci", None)
+                            if isinstance(v0, (FObj, FNT)) and isinstance(ci0, ClassInfo) and self.f.p.is_subclass(ci0, x):
+                                return True
+                        elif isinstance(v0, FNT) and v0.ci is None and tuple(v0.fields) == tuple(x.data[1]):
+                            return True
+                    return False
             if n == "type" and len(args) == 1 and isinstance(args[0], ClassInfo):
                 return _Bound("builtin", None, "type")
             if n == "hasattr" and len(args) == 2 and isinstance(args[0], ClassInfo) and isinstance(args[1], str):
